@@ -191,6 +191,10 @@ pub(crate) fn collect_and_prepare<S: IndexedFull>(
             .find_map(Result::ok)
     };
 
+    // set while processing an existing entry which sits at a path of the snapshot but has the wrong type:
+    // such an entry is no additional entry and must be removed in any case
+    let force_remove = std::cell::Cell::new(false);
+
     let mut process_existing =
         |walker: &mut walkdir::IntoIter, entry: &DirEntry| -> RusticResult<Option<DirEntry>> {
             if entry.depth() == 0 {
@@ -205,7 +209,7 @@ pub(crate) fn collect_and_prepare<S: IndexedFull>(
             } else {
                 stats.files.additional += 1;
             }
-            match (opts.delete, dry_run, is_dir) {
+            match (opts.delete || force_remove.get(), dry_run, is_dir) {
                 (true, true, true) => {
                     info!(
                         "would have removed the additional dir: {}",
@@ -327,16 +331,20 @@ pub(crate) fn collect_and_prepare<S: IndexedFull>(
                     }
                     Ordering::Equal => {
                         // process existing node
-                        if (node.is_dir() && !destination.file_type().is_dir())
+                        let type_mismatch = (node.is_dir() && !destination.file_type().is_dir())
                             || (node.is_file() && !destination.file_type().is_file())
-                            || node.is_special()
-                        {
-                            // if types do not match, first remove the existing file
+                            || node.is_special();
+                        if type_mismatch {
+                            // if types do not match, first remove the existing file - also without `delete`:
+                            // e.g. writing "through" an existing symlink must not happen
+                            force_remove.set(true);
                             next_dst = process_existing(&mut walker, destination)?;
+                            force_remove.set(false);
                         } else {
                             next_dst = next_entry(&mut walker);
                         }
-                        process_node(path, node, true)?;
+                        // a removed entry of the wrong type does not exist any more
+                        process_node(path, node, !type_mismatch)?;
                         next_node = node_streamer.next().transpose()?;
                     }
                     Ordering::Greater => {
